@@ -45,8 +45,11 @@ def trange(t):
 #                reduced with `% m` first, so that fewer executions end in an implementation-defined conversion
 #   call_stmts   calls of generated functions mostly as `T v = f(leaf, ...);` statements, rarely inside larger
 #                expressions, so that fewer executions depend on an unspecified evaluation order
+#   sinks        (default) no dead computation: the final return of every function combines (^) the generated
+#                expression with all parameters and top-level locals, and "sink" statements store locals into
+#                globals / pass them to external calls, so that a wrong intermediate value reaches the observation
 DEFAULT_FEATURES = {"arrays", "structs", "pointers", "switch", "calls", "extern", "loops",
-                    "shortcircuit", "cond", "casts", "compound", "div", "shift"}
+                    "shortcircuit", "cond", "casts", "compound", "div", "shift", "sinks"}
 C01_FEATURES = DEFAULT_FEATURES | {"safe_narrow", "call_stmts"}
 
 
@@ -150,7 +153,18 @@ class Gen:
         self.cur_index = k
         self.in_switch = 0
         body = self.block(self.max_stmts, 0)
-        body.append({"k": "ret", "e": self.fit(self.expr(self.max_depth), ret)})
+        e = self.expr(self.max_depth)
+        if "sinks" in self.feat:
+            # every parameter and every top-level local (all are initialised when the end of the body is reached)
+            names = [p["n"] for p in params]
+            for st in body:
+                if st["k"] == "decl":
+                    names.append(st["n"])
+                elif st["k"] == "seq" and st["b"] and st["b"][0]["k"] == "decl":
+                    names.append(st["b"][0]["n"])
+            for n in names:
+                e = {"k": "bin", "op": "^", "a": e, "b": {"k": "var", "n": n}}
+        body.append({"k": "ret", "e": self.fit(e, ret)})
         f = {"n": "f%d" % k, "ret": ret, "params": params + ([ptr_param] if ptr_param else []), "body": body}
         return f
 
@@ -235,6 +249,8 @@ class Gen:
             kinds.append("ret")
         if "call_stmts" in self.feat and "calls" in self.feat and self.cur_index > 0:
             kinds += ["calldecl", "calldecl"]
+        if "sinks" in self.feat and self.vars_in_scope():
+            kinds += ["sink", "sink"]
         k = r.choice(kinds)
         D = self.max_depth
         if k == "decl":
@@ -243,6 +259,27 @@ class Gen:
             n = self.name("v")
             self.scope[-1][n] = ty
             return {"k": "decl", "n": n, "ty": ty, "e": e}
+        if k == "sink":
+            # make a local observable: store it into a global object or hand it to an external function
+            vs = self.vars_in_scope()
+            v = {"k": "var", "n": r.choice(sorted(vs))}
+            if r.random() < 0.3:
+                n2 = r.choice(sorted(vs))
+                v = {"k": "bin", "op": r.choice(["^", "+", "-"]) if vs[n2][0] == "u" else "^", "a": v, "b": {"k": "var", "n": n2}}
+            if "extern" in self.feat and self.externs and r.random() < 0.35:
+                x = r.choice(self.externs)
+                args = [self.fit(v, x["args"][0])] + [self.fit(self.leaf(), t) for t in x["args"][1:]]
+                return {"k": "expr", "e": {"k": "call", "f": x["n"], "args": args}}
+            gl = []
+            for g in self.globals:
+                if "struct" in g:
+                    gl += [({"k": "fld", "s": g["n"], "f": f["f"]}, f["ty"]) for f in g["struct"]]
+                elif g.get("len"):
+                    gl.append(({"k": "idx", "a": g["n"], "e": {"k": "lit", "ty": "i32", "v": r.randrange(g["len"])}}, g["ty"]))
+                else:
+                    gl.append(({"k": "var", "n": g["n"]}, g["ty"]))
+            lv, ty = r.choice(gl)
+            return {"k": "asg", "lhs": lv, "op": r.choice(["=", "=", "^="]), "e": self.fit(v, ty)}
         if k == "calldecl":
             ty = self.pick_type()
             e = self.fit(self.call_expr(0), ty)
@@ -726,3 +763,77 @@ def render_gcc_main(prog, f, vecs, ext):
     out.append("  return 0;")
     out.append("}")
     return "\n".join(out) + "\n"
+
+
+# ------------------------------------------------- avoiding constructs known to be miscompiled
+def _plus0(e):
+    """e + 0: the same value in the promoted type of e (forces the integer promotions through `+`)."""
+    return {"k": "bin", "op": "+", "a": e, "b": {"k": "lit", "ty": "i32", "v": 0}}
+
+
+def sanitize(prog, classes):
+    """A copy of the program that does not use the construct classes in `classes` (C01 engine: classes for which a
+    systematic probe failed in this run, so that the random programs test everything else):
+      unary     -x, ~x     ->  -(x + 0), ~(x + 0)
+      compare   a < b ...  ->  (a + 0) < (b + 0)
+      shift     a << b     ->  a << (int)b
+      compound  lv op= e   ->  lv = lv op (e)
+    The result is simply another program (Src.tla is run on it again); nothing relies on equivalence."""
+    cmpops = ("<", "<=", ">", ">=", "==", "!=")
+
+    def ex(e):
+        k = e["k"]
+        if k in ("lit", "var", "fld"):
+            return dict(e)
+        if k in ("idx", "deref", "addr"):
+            return dict(e, e=ex(e["e"]))
+        if k == "un":
+            a = ex(e["a"])
+            return dict(e, a=_plus0(a) if "unary" in classes and e["op"] in ("-", "~") else a)
+        if k == "bin":
+            a, b = ex(e["a"]), ex(e["b"])
+            if "compare" in classes and e["op"] in cmpops:
+                a, b = _plus0(a), _plus0(b)
+            if "shift" in classes and e["op"] in ("<<", ">>"):
+                b = {"k": "cast", "ty": "i32", "a": b}
+            return dict(e, a=a, b=b)
+        if k == "cast":
+            return dict(e, a=ex(e["a"]))
+        if k == "cond":
+            return dict(e, c=ex(e["c"]), a=ex(e["a"]), b=ex(e["b"]))
+        if k == "call":
+            return dict(e, args=[ex(a) for a in e["args"]])
+        raise AssertionError(k)
+
+    def st(ss):
+        out = []
+        for s in ss:
+            k = s["k"]
+            if k in ("decl", "ret", "expr"):
+                out.append(dict(s, e=ex(s["e"])))
+            elif k == "asg":
+                lhs, e = ex(s["lhs"]), ex(s["e"])
+                if "compound" in classes and s["op"] != "=":
+                    op = s["op"][:-1]
+                    if "shift" in classes and op in ("<<", ">>"):
+                        e = {"k": "cast", "ty": "i32", "a": e}
+                    out.append({"k": "asg", "lhs": lhs, "op": "=", "e": {"k": "bin", "op": op, "a": ex(s["lhs"]), "b": e}})
+                else:
+                    out.append(dict(s, lhs=lhs, e=e))
+            elif k == "inc":
+                out.append(dict(s, lhs=ex(s["lhs"])))
+            elif k == "if":
+                out.append(dict(s, c=ex(s["c"]), t=st(s["t"]), f=st(s["f"])))
+            elif k in ("while", "dowhile"):
+                out.append(dict(s, c=ex(s["c"]), b=st(s["b"])))
+            elif k == "for":
+                out.append(dict(s, hi=ex(s["hi"]), b=st(s["b"])))
+            elif k == "seq":
+                out.append(dict(s, b=st(s["b"])))
+            elif k == "switch":
+                out.append(dict(s, e=ex(s["e"]), cases=[dict(c, b=st(c["b"])) for c in s["cases"]]))
+            else:
+                out.append(dict(s))
+        return out
+
+    return dict(prog, funcs=[dict(f, body=st(f["body"])) for f in prog["funcs"]])
